@@ -213,6 +213,84 @@ fn run_cfg(cx: &mut CaseCx, case: &Value) {
 
 
 
+
+/// a rejected grouping call (malformed line after valid ones) must leave nothing behind for the next call;
+/// shares at 129-bit evaluation points group like any other
+fn run_call_history(cx: &mut CaseCx, case: &Value) {
+  let t = case["t"].as_u64().unwrap() as u32;
+  let d = json!({"t": t});
+  let mk = |cx: &mut CaseCx, m: &[u8], n: usize, craft: &[&str]| -> Vec<Created> {
+    let mut v = vec![];
+    for i in 0..n {
+      getrandom::verif::set_group(i as u32 + 1);
+      if let Some(c) = craft.get(i) {
+        apply_answer(&Ans::Craft(c.to_string()));
+      }
+      let c = create(cx, m, t, "e", &d);
+      getrandom::verif::clear_script();
+      if let Some(c) = c {
+        v.push(c);
+      }
+    }
+    v
+  };
+  let a = mk(cx, b"measurement A", t as usize + 1, &[]);
+  let b = mk(cx, b"measurement B", t as usize + 1, &[]);
+  if a.len() != t as usize + 1 || b.len() != t as usize + 1 {
+    return;
+  }
+  let key_a = BASE64_STANDARD.encode(&a[0].key);
+  let key_b = BASE64_STANDARD.encode(&b[0].key);
+  let join = |v: &[&Created]| v.iter().map(|c| c.share_b64.clone()).collect::<Vec<_>>().join("\n");
+  let bad_tails = ["!", "", "AAAA", "\u{e9}"];
+  for bad in bad_tails {
+    for k in 1..=t as usize {
+      // call 1: k valid shares of A followed by a malformed line (e.g. a trailing newline) -> nothing
+      let first = format!("{}\n{}", join(&a.iter().take(k).collect::<Vec<_>>()), bad);
+      cx.eval();
+      cx.nontrivial(fnv_str(&format!("{}|{}|{}", t, bad, k)));
+      match guard(|| star_wasm::group_shares(&first, "e")) {
+        Ok(None) => {}
+        other => {
+          cx.viol("C17/group_shares-malformed-line", format!("a collection with a malformed line returned {:?}", other.map(|o| o.is_some())), json!({"t": t, "bad_line": bad}));
+          continue;
+        }
+      }
+      // call 2a: fewer than t shares of A -> nothing (nothing of call 1 may be counted)
+      if t >= 2 {
+        let few = join(&a.iter().skip(k.min(t as usize)).take(t as usize - 1).collect::<Vec<_>>());
+        if !few.is_empty() {
+          cx.eval();
+          if guard(|| star_wasm::group_shares(&few, "e")) != Ok(None) {
+            cx.viol("C17/group_shares-carries-state", format!("after a rejected call that held {} valid share(s), a call with only {} < t shares returned a key", k, t - 1), json!({"t": t, "valid_shares_in_rejected_call": k, "bad_line": bad}));
+          }
+        }
+      }
+      // call 1 again, then 2b: a complete grouping of ANOTHER measurement -> its key
+      let _ = guard(|| star_wasm::group_shares(&first, "e"));
+      cx.eval();
+      match guard(|| star_wasm::group_shares(&join(&b.iter().take(t as usize).collect::<Vec<_>>()), "e")) {
+        Ok(Some(kb)) if kb == key_b => cx.count("history_ok", 1),
+        other => cx.viol("C17/group_shares-carries-state", format!("after a rejected call, a complete grouping of another measurement returned {:?} instead of its key", other.map(|o| o.map(|s| s == key_a))), json!({"t": t, "valid_shares_in_rejected_call": k, "bad_line": bad})),
+      }
+    }
+  }
+  // crafted evaluation points in [2^128, p)
+  let pts = ["340282366920938463463374607431768211461", "340282366920938463463374607431768223906", "340282366920938463463374607431768211456", "5"];
+  let c = mk(cx, b"measurement C", (t as usize).min(4), &pts);
+  if c.len() == (t as usize).min(4) && c.len() == t as usize && c.iter().zip(pts.iter()).all(|(c, p)| c.x.to_string() == *p) {
+    cx.eval();
+    let want = BASE64_STANDARD.encode(&c[0].key);
+    match guard(|| star_wasm::group_shares(&join(&c.iter().collect::<Vec<_>>()), "e")) {
+      Ok(Some(k)) if k == want => cx.count("crafted_points_grouped", 1),
+      other => cx.viol("C17/group_shares-wrong-key", format!("t shares at the evaluation points {:?} (some in [2^128, p)) grouped to {:?} instead of the clients' key", &pts[..t as usize], other.map(|o| o.is_some())), json!({"t": t, "points": &pts[..t as usize]})),
+    }
+  } else {
+    cx.count("craft_miss", 1);
+  }
+  cx.outcome("call history");
+}
+
 /// large thresholds through the wrapper: exactly t shares group to the key; huge thresholds are passed on unchanged
 fn run_large_thresholds(cx: &mut CaseCx, case: &Value) {
   let t = case["t"].as_u64().unwrap() as u32;
@@ -345,6 +423,13 @@ pub fn spec() -> PropSpec {
       },
       run: run_cfg,
       min_counts: &[("grouped_ok", 1000), ("below_threshold_none", 100), ("wrong_epoch_no_key", 1000), ("mixture_none", 100)],
+    },
+    Check {
+      name: "call-history",
+      rule: "t in 1..4: a call holding k valid shares followed by a malformed line (4 kinds, incl. a trailing newline) is rejected; the NEXT call with t-1 shares must yield nothing and a complete grouping of another measurement must yield that measurement's key (nothing survives a rejected call); t shares created at scripted evaluation points 2^128+5, p-1, 2^128, 5 group to the clients' key",
+      gen: |_| (1..=4u64).map(|t| json!({"t": t})).collect(),
+      run: run_call_history,
+      min_counts: &[("history_ok", 20), ("crafted_points_grouped", 3)],
     },
     Check {
       name: "large-thresholds",
